@@ -27,6 +27,10 @@ fn main() {
         Some("worker") => cmd_worker(&args),
         Some("replay") => cmd_replay(&args),
         Some("replay-inner") => cmd_replay_inner(&args),
+        Some("trace-digest") => {
+            quiet_panics();
+            svcore::props::multi::trace_digest_cmd(args.get(2).map_or("", String::as_str))
+        }
         _ => {
             eprintln!("usage: svcheck check <PROP> --tier quick|thorough | svcheck replay <PROP> <file>");
             2
@@ -278,7 +282,7 @@ fn cmd_check(args: &[String]) -> i32 {
     let mut exhaustive = false;
     for (eng, r) in &merged {
         evaluations += r.evaluations;
-        distinct += r.nontrivial_hashes.len() as u64;
+        distinct += r.nontrivial_hashes.len() as u64 + r.distinct_extra;
         exhaustive = exhaustive || r.exhaustive;
         for s in &r.samples {
             if samples.len() < 5 {
@@ -286,7 +290,7 @@ fn cmd_check(args: &[String]) -> i32 {
             }
         }
         per_engine.insert(eng.clone(), json!({
-            "cases": r.cases, "evaluations": r.evaluations, "distinct_nontrivial": r.nontrivial_hashes.len(),
+            "cases": r.cases, "evaluations": r.evaluations, "distinct_nontrivial": r.nontrivial_hashes.len() as u64 + r.distinct_extra,
             "class_histogram_cases_with_event": r.events, "counters": r.counters,
             "known_finding_hits": r.known_hits, "notes": r.notes, "exhaustive": r.exhaustive,
         }));
